@@ -92,6 +92,11 @@ var c10Templates = []string{
 	`(defun al-f (x) (car x)) (set 'al-g al-f) (set 'al-h al-f) (set 'al-i al-f) (set 'al-j al-f) (set 'al-j 0) (set 'al-i 1) (handler-bind ((condition (lambda (c &rest a) (debug-print c a) (rethrow)))) (al-g 5))`,
 	`(defun pair-up (a b) (list a b)) (set 'mk-pair pair-up) (set 'mk2 pair-up) (set 'mk3 pair-up) (set 'mk3 ()) (list (mk-pair 1))`,
 	`(labels ((inner (x) (undefined-thing x))) (set 'k1 inner) (set 'k2 inner) (set 'k3 inner) (set 'k4 inner) (set 'k4 0) (k2 1))`,
+	// listings of what packages export, and the error for an export that is not bound
+	`(list (help:help-package-symbols 's) (help:help-package-symbols 'math) (help:help-package-symbols 'string) (help:help-package-symbols 'json))`,
+	`(help:help-package 'math) (help:help-package 'time)`,
+	`(in-package 'greek) (export 'alpha 'beta 'gamma 'delta 'nu 'xi 'omicron) (in-package 'user) (use-package 'greek)`,
+	`(in-package 'latin) (export 'a1) (export 'b1 'c1 'd1 'e1 'f1 'g1) (set 'a1 1) (in-package 'user) (handler-bind ((condition (lambda (c &rest a) (debug-print c a) (rethrow)))) (use-package 'latin))`,
 	// several children of one container fail: which failure is reported must not depend on map order
 	`(json:load-string "{\"k1\":9223372036854775808,\"k2\":99999999999999999999,\"k3\":18446744073709551616,\"k4\":9223372036854775809,\"k5\":-9223372036854775809,\"k6\":123456789012345678901234}" :exact-integers true)`,
 	`(json:load-bytes (to-bytes "[1,{\"p\":{\"x\":-9223372036854775810,\"y\":9223372036854775811,\"z\":9223372036854775812,\"w\":9223372036854775813},\"q\":9223372036854775814}]") :exact-integers true)`,
